@@ -185,6 +185,23 @@ func c16Rules(p *core.Prog, r *core.Run) {
 						}
 					}
 				}
+				// a value parked in a local that is written once (the named result
+				// of an inlined accessor) is the value that was parked
+				for n := 0; n < 4; n++ {
+					u, isLoad := resV.(*ssa.UnOp)
+					if !isLoad || u.Op != token.MUL {
+						break
+					}
+					cell, isCell := u.X.(*ssa.Alloc)
+					if !isCell {
+						break
+					}
+					stores, calls := p.CellDefs(cell)
+					if len(stores) != 1 || len(calls) != 0 {
+						break
+					}
+					resV = stores[0].Val
+				}
 				ldRes, ok2 := resV.(ssa.Instruction)
 				if ok1 && ok2 {
 					sameHold = true
